@@ -779,3 +779,174 @@ Proof.
   - intros r c Hr Hc. rewrite kernel_disp_in, kernel_val_in by assumption.
     apply occ_sgm_meets; assumption.
 Qed.
+
+(* ------------------------------------------------------------------ the clauses of the property, from the Spec *)
+Lemma flagged_false : forall m, flagged m = false <-> Z.testbit m 8 = false /\ Z.testbit m 9 = false.
+Proof. intro m. unfold flagged. destruct (Z.testbit m 8), (Z.testbit m 9); cbn; intuition congruence. Qed.
+
+Lemma swapped_84_bits : forall m m', swapped 8 4 m m' ->
+  Z.testbit m' 8 = false /\ Z.testbit m' 9 = Z.testbit m 9.
+Proof. intros m m' H. split. apply (swapped_from 8 4 m); [exact H|lia]. apply (swapped_bit 8 4); [exact H|lia..]. Qed.
+Lemma swapped_95_bits : forall m m', swapped 9 5 m m' ->
+  Z.testbit m' 9 = false /\ Z.testbit m' 8 = Z.testbit m 8.
+Proof. intros m m' H. split. apply (swapped_from 9 5 m); [exact H|lia]. apply (swapped_bit 9 5); [exact H|lia..]. Qed.
+Lemma swapped_98_bits : forall m m', swapped 9 8 m m' ->
+  Z.testbit m' 9 = false /\ Z.testbit m' 8 = true.
+Proof. intros m m' H. split. apply (swapped_from 9 8 m); [exact H|lia]. apply (swapped_to 9 8 m); [exact H|lia..]. Qed.
+
+Lemma swapped_98_84 : forall m m1 m', Z.testbit m 8 = false ->
+  swapped 9 8 m m1 -> swapped 8 4 m1 m' -> swapped 9 4 m m'.
+Proof.
+  intros m m1 m' H8 H1 H2 n Hn. rewrite H2, H1 by exact Hn.
+  destruct (Z.eqb_spec n 8) as [->|N8]; cbn [Z.eqb Pos.eqb]. exact (eq_sym H8).
+  destruct (Z.eqb_spec n 4) as [->|N4]; cbn [Z.eqb Pos.eqb]. reflexivity.
+  destruct (Z.eqb_spec n 9); reflexivity.
+Qed.
+
+Lemma contributes_range : forall nr nc d m lo hi (path : Z * Z -> Z -> Z -> Z -> Z * Z) r c dirs nb,
+  valid_range nr nc d m lo hi ->
+  Forall2 (fun d0 o => contributes nr nc d m (path d0 r c) o) dirs nb ->
+  forall y, In y (finite nb) -> (lo <= y <= hi)%Q.
+Proof.
+  intros nr nc d m lo hi path r c dirs nb VR F. induction F as [|d0 o dirs nb Hc F IH]; intros y Hy.
+  - destruct Hy.
+  - cbn [finite flat_map] in Hy. apply in_app_or in Hy. destruct Hy as [Hy|Hy]; [|apply IH; exact Hy].
+    destruct o as [q|]; [|destruct Hy]. destruct Hy as [<-|[]].
+    destruct Hc as [(k & (Hk & Hin & Hv & _) & Eo) | (_ & Eo)]; [|discriminate].
+    specialize (Hin k ltac:(lia)). destruct Hin as [Hi1 Hi2].
+    destruct (VR _ _ Hi1 Hi2 Hv) as (q' & Eq & Hr). unfold disp_at in Eo. rewrite Eq in Eo.
+    injection Eo as ->. exact Hr.
+Qed.
+
+Lemma contributes_blind : forall nr nc d m (path : Z * Z -> Z -> Z -> Z -> Z * Z) r c dirs nb,
+  (forall r c, 0 <= r < nr -> 0 <= c < nc -> spec_valid (m r c) = false) ->
+  Forall2 (fun d0 o => contributes nr nc d m (path d0 r c) o) dirs nb -> finite nb = [].
+Proof.
+  intros nr nc d m path r c dirs nb NV F. induction F as [|d0 o dirs nb Hc F IH]. reflexivity.
+  cbn [finite flat_map]. change (flat_map _ nb) with (finite nb). rewrite IH.
+  destruct Hc as [(k & (Hk & Hin & Hv & _) & Eo) | (_ & ->)]; [|reflexivity].
+  specialize (Hin k ltac:(lia)). destruct Hin as [Hi1 Hi2]. unfold valid_at in Hv.
+  rewrite (NV _ _ Hi1 Hi2) in Hv. discriminate.
+Qed.
+
+Lemma first_valid_blind : forall nr nc m path k,
+  (forall r c, 0 <= r < nr -> 0 <= c < nc -> spec_valid (m r c) = false) ->
+  ~ first_valid nr nc m path k.
+Proof.
+  intros nr nc m path k NV (Hk & Hin & Hv & _). specialize (Hin k ltac:(lia)). destruct Hin as [Hi1 Hi2].
+  unfold valid_at in Hv. rewrite (NV _ _ Hi1 Hi2) in Hv. discriminate.
+Qed.
+
+Section McClauses.
+  Variables nr nc off : Z.
+  Variable disp : Z -> Z -> option Q.
+  Variable mask : Z -> Z -> Z.
+  Variable disp' : Z -> Z -> option Q.
+  Variable mask' : Z -> Z -> Z.
+  Hypothesis S : mc_cnn_spec nr nc off disp mask disp' mask'.
+
+  Definition remarked (r c : Z) : bool := (0 <? off) && is_border nr nc off r c.
+
+  Lemma mc_only_flagged : forall r c, 0 <= r < nr -> 0 <= c < nc -> flagged (mask r c) = false ->
+    disp' r c = disp r c /\ mask' r c = if remarked r c then 1 else mask r c.
+  Proof.
+    intros r c Hr Hc Hf. apply flagged_false in Hf. destruct Hf as [F8 F9].
+    destruct S as (d1 & m1 & m2 & P1 & P2 & B).
+    specialize (P1 r c Hr Hc). specialize (P2 r c Hr Hc). specialize (B r c Hr Hc).
+    destruct P1 as [[_ [Ed Em]] | [E8 _]]; [|congruence].
+    destruct P2 as [[_ [Ed' Em']] | [E9 _]]; [|rewrite Em in E9; congruence].
+    unfold remarked. rewrite B, Em', Em, Ed', Ed. split; reflexivity.
+  Qed.
+
+  Lemma mc_border : forall r c, 0 <= r < nr -> 0 <= c < nc -> 0 < off -> is_border nr nc off r c = true ->
+    mask' r c = 1.
+  Proof.
+    intros r c Hr Hc Ho Hb. destruct S as (d1 & m1 & m2 & _ & _ & B). rewrite (B r c Hr Hc), Hb.
+    replace (0 <? off) with true by lia. reflexivity.
+  Qed.
+
+  (* what can happen to a flagged pixel (not carrying both bits, not re-marked as border) *)
+  Lemma mc_fate : forall r c, 0 <= r < nr -> 0 <= c < nc -> remarked r c = false ->
+    Z.testbit (mask r c) 8 && Z.testbit (mask r c) 9 = false ->
+    (Z.testbit (mask r c) 8 = true ->
+       (mask' r c = mask r c /\ disp' r c = disp r c) \/ swapped 8 4 (mask r c) (mask' r c)) /\
+    (Z.testbit (mask r c) 9 = true ->
+       (mask' r c = mask r c /\ disp' r c = disp r c) \/ swapped 9 5 (mask r c) (mask' r c)).
+  Proof.
+    intros r c Hr Hc Hrm NB. destruct S as (d1 & m1 & m2 & P1 & P2 & B).
+    specialize (P1 r c Hr Hc). specialize (P2 r c Hr Hc). specialize (B r c Hr Hc).
+    unfold remarked in Hrm. rewrite Hrm in B. rewrite B. split; intro Hb.
+    - rewrite Hb in NB. cbn [andb] in NB.
+      destruct P1 as [[E8 _] | [_ P1]]; [congruence|].
+      assert (X : (unchanged disp mask r c (d1 r c) (m1 r c)) \/ swapped 8 4 (mask r c) (m1 r c)).
+      { destruct P1 as [(k & _ & _ & Hs) | [(_ & k & _ & _ & Hs) | (_ & _ & U)]]; auto. }
+      destruct X as [[Ed Em] | Hs].
+      + destruct P2 as [[_ [Ed' Em']] | [E9 _]]; [|rewrite Em in E9; congruence].
+        left. rewrite Em', Em, Ed', Ed. split; reflexivity.
+      + destruct (swapped_84_bits _ _ Hs) as [_ S9]. rewrite NB in S9.
+        destruct P2 as [[_ [_ Em']] | [E9 _]]; [|congruence]. right. rewrite Em'. exact Hs.
+    - rewrite Hb, andb_true_r in NB.
+      destruct P1 as [[_ [Ed Em]] | [E8 _]]; [|congruence].
+      destruct P2 as [[E9 _] | [_ (nb & _ & [(_ & _ & Hs) | (_ & [Ed' Em'])])]].
+      + rewrite Em in E9. congruence.
+      + right. rewrite <- Em. exact Hs.
+      + left. rewrite Em', Em, Ed', Ed. split; reflexivity.
+  Qed.
+
+  (* after the occlusion pass every valid pixel still holds a finite disparity within the bounds *)
+  Lemma mc_pass1_range : forall lo hi d1 m1, valid_range nr nc disp mask lo hi ->
+    pass mc_occlusion_px nr nc disp mask d1 m1 -> valid_range nr nc d1 m1 lo hi.
+  Proof.
+    intros lo hi d1 m1 VR P1 r c Hr Hc Hv. specialize (P1 r c Hr Hc).
+    assert (Src : forall k p, first_valid nr nc mask p k -> exists q, disp_at disp (p k) = Some q /\ (lo <= q <= hi)%Q).
+    { intros k p (Hk & Hin & Hvk & _). specialize (Hin k ltac:(lia)). destruct Hin. apply VR; assumption. }
+    destruct P1 as [[_ [Ed Em]] | [_ [(k & Hf & Ed & _) | [(_ & k & Hf & Ed & _) | (_ & _ & [Ed Em])]]]].
+    - rewrite Ed. apply VR; try assumption. rewrite <- Em. exact Hv.
+    - rewrite Ed. exact (Src k _ Hf).
+    - rewrite Ed. exact (Src k _ Hf).
+    - rewrite Ed. apply VR; try assumption. rewrite <- Em. exact Hv.
+  Qed.
+
+  Lemma mc_filled_range : forall lo hi, valid_range nr nc disp mask lo hi ->
+    forall r c, 0 <= r < nr -> 0 <= c < nc -> remarked r c = false ->
+    filled (mask r c) (mask' r c) -> exists q, disp' r c = Some q /\ (lo <= q <= hi)%Q.
+  Proof.
+    intros lo hi VR r c Hr Hc Hrm [Ff Fn]. destruct S as (d1 & m1 & m2 & P1 & P2 & B).
+    pose proof (mc_pass1_range lo hi d1 m1 VR P1) as VR1.
+    pose proof (P1 r c Hr Hc) as Q1. specialize (P2 r c Hr Hc). specialize (B r c Hr Hc).
+    unfold remarked in Hrm. rewrite Hrm in B. rewrite B in Fn. apply flagged_false in Fn. destruct Fn as [N8 N9].
+    assert (Src : forall k p, first_valid nr nc mask p k -> exists q, disp_at disp (p k) = Some q /\ (lo <= q <= hi)%Q).
+    { intros k p (Hk & Hin & Hvk & _). specialize (Hin k ltac:(lia)). destruct Hin. apply VR; assumption. }
+    destruct P2 as [[E9 [Ed' Em']] | [E9 (nb & Fnb & [(Hne & (x & Ex & Hmed) & Hs) | (_ & [_ Em'])])]].
+    - (* untouched by the mismatch pass: it was filled by the occlusion pass *)
+      rewrite Ed'. rewrite Em' in N8, N9.
+      destruct Q1 as [[E8 [_ Em]] | [E8 [(k & Hf & Ed & _) | [(_ & k & Hf & Ed & _) | (_ & _ & [_ Em])]]]].
+      + exfalso. rewrite Em in N9. unfold flagged in Ff. rewrite E8, N9 in Ff. discriminate.
+      + rewrite Ed. exact (Src k _ Hf).
+      + rewrite Ed. exact (Src k _ Hf).
+      + rewrite Em in N8. congruence.
+    - exists x. split. exact Ex. eapply median_bounds. exact Hmed.
+      intros y Hy. eapply contributes_range; eassumption.
+    - rewrite Em' in N9. congruence.
+  Qed.
+
+  (* a map without any valid pixel: nothing is filled, nothing changes *)
+  Lemma mc_no_valid_pixel : (forall r c, 0 <= r < nr -> 0 <= c < nc -> spec_valid (mask r c) = false) ->
+    forall r c, 0 <= r < nr -> 0 <= c < nc ->
+      disp' r c = disp r c /\ mask' r c = if remarked r c then 1 else mask r c.
+  Proof.
+    intros NV r c Hr Hc. destruct S as (d1 & m1 & m2 & P1 & P2 & B).
+    assert (U1 : forall r c, 0 <= r < nr -> 0 <= c < nc -> d1 r c = disp r c /\ m1 r c = mask r c).
+    { intros r0 c0 Hr0 Hc0. specialize (P1 r0 c0 Hr0 Hc0).
+      destruct P1 as [[_ U] | [_ [(k & Hf & _) | [(_ & k & Hf & _) | (_ & _ & U)]]]]; try exact U;
+        exfalso; exact (first_valid_blind _ _ _ _ _ NV Hf). }
+    assert (NV1 : forall r c, 0 <= r < nr -> 0 <= c < nc -> spec_valid (m1 r c) = false).
+    { intros r0 c0 Hr0 Hc0. destruct (U1 r0 c0 Hr0 Hc0) as [_ ->]. apply NV; assumption. }
+    specialize (P2 r c Hr Hc). specialize (B r c Hr Hc). destruct (U1 r c Hr Hc) as [Ed Em].
+    unfold remarked. rewrite B.
+    destruct P2 as [[_ [Ed' Em']] | [_ (nb & Fnb & [(Hne & _) | (_ & [Ed' Em'])])]].
+    - rewrite Ed', Em', Ed, Em. split; reflexivity.
+    - exfalso. apply Hne. eapply contributes_blind; eassumption.
+    - rewrite Ed', Em', Ed, Em. split; reflexivity.
+  Qed.
+End McClauses.
